@@ -447,6 +447,22 @@ def main():
                                           "error": "gradient %s with the sub-function checkpointed, %s without" % (got.tolist(), want.tolist())})
             except Exception as ex:
                 out["errors"].append({"kind": "checkpointed-subfunction", "program": nm, "kwargs": kw, "error": "raised %r" % (ex,)})
+    # a user rule that answers None instead of a cotangent: refused (or treated as no contribution) - never a gradient made of
+    # some other node's cotangent
+    @_prim2
+    def _mute(v):
+        return v * 2.0
+    _dv2(_mute, lambda ans, v: lambda g: None)
+    for nm, fn_, want in (("every path through the mute rule", lambda x: _anp.sum(_mute(x * 3.0) * c3), onp.zeros(3)),
+                          ("one path through the mute rule", lambda x: _anp.sum(_mute(x * 3.0) * c3) + _anp.sum(x * c3), c3),
+                          ("mute rule behind a fan-out", lambda x: _anp.sum(_mute(x) + _mute(x * x)) + 2.0 * _anp.sum(x), 2.0 * onp.ones(3))):
+        out["dist"]["none-answering-rule"] = out["dist"].get("none-answering-rule", 0) + 1
+        try:
+            got = onp.asarray(_g2(fn_)(c3))
+        except Exception:
+            continue
+        if got.shape != (3,) or not onp.all(got == want):
+            out["errors"].append({"kind": "none-answering-rule", "program": nm, "error": "gradient %s; a rule answering None contributes nothing: %s" % (got.tolist(), want.tolist())})
     # graphs far deeper than Python's recursion limit (a loop of several thousand steps, a deep chain with skip
     # edges): the passes are iterative, so depth is only a matter of memory
     import sys as _sys
